@@ -3,6 +3,7 @@ import SciVerif.Props.C06
 import SciVerif.Tie.Pins
 /-! Tie A obligations for C06 on the current source. -/
 namespace SciVerif.Tie
+-- PIN-NOT: Scipipe.Task_executeCommand Scipipe.Task_formatCommand Scipipe.FinalizePaths Scipipe.Task_finalizePaths Scipipe.Task_anyOutputsExist
 open SciVerif.Slots
 
 /-- `Inc`/`Dec` move exactly `t.cores` tokens through a channel of capacity `maxConcurrentTasks` -/
@@ -18,18 +19,14 @@ theorem c06_on_source (max : Nat) (cores : List Nat) (sched : List Nat) (s : St)
 
 
 
+
 -- BEGIN PINS (written by bin/mkpins; do not edit by hand)
 /-- the Go functions this property's model and obligations were written against have exactly the
 pinned skeletons (SHA-256 prefix of the atom list) -/
 theorem pinned_skeletons_c06 :
     pinsOk
     [("Scipipe.#decls", "7633eb8a74616d59"),
-     ("Scipipe.FinalizePaths", "291fc0cefa37cea9"),
      ("Scipipe.Task_Execute", "40fd1fec0c69deb2"),
-     ("Scipipe.Task_anyOutputsExist", "0609a842b7aaf7a8"),
-     ("Scipipe.Task_executeCommand", "98e77d849c0638cb"),
-     ("Scipipe.Task_finalizePaths", "9cd0530d4e86fa92"),
-     ("Scipipe.Task_formatCommand", "ccbe98735ce5c7d6"),
      ("Scipipe.Workflow_DecConcurrentTasks", "2862c41bbe9893c5"),
      ("Scipipe.Workflow_IncConcurrentTasks", "acd0e561d4db6cb8"),
      ("Scipipe.newWorkflowWithoutLogging", "6bb5eb2ae17350a8")] = true := by decide
